@@ -79,6 +79,13 @@ func snapfailColl(shape int) *column.Collection {
 	c := column.NewCollection(column.Options{Capacity: 64, Vacuum: 24 * time.Hour})
 	c.CreateColumn("n", column.ForInt32())
 	c.CreateColumn("s", column.ForString())
+	// a flag column, computed columns of every sort, and a data column registered after them (the stream's column
+	// count and the per-chunk buffers must agree on which columns carry state)
+	c.CreateColumn("f", column.ForBool())
+	c.CreateIndex("big", "n", func(r column.Reader) bool { return r.Int() > 5 })
+	c.CreateSortIndex("by_s", "s")
+	c.CreateTrigger("tr", "n", func(column.Reader) {})
+	c.CreateColumn("late", column.ForInt64())
 	var offs []uint32
 	switch shape {
 	case 1:
@@ -105,6 +112,8 @@ func snapfailColl(shape int) *column.Collection {
 					}
 					r.SetInt32("n", int32(i))
 					r.SetString("s", string(b[:]))
+					r.SetBool("f", i%3 == 0)
+					r.SetInt64("late", int64(i)*3)
 					return nil
 				})
 			}
@@ -118,6 +127,8 @@ func snapfailColl(shape int) *column.Collection {
 				txn.QueryAt(o, func(r column.Row) error {
 					r.SetInt32("n", int32(i))
 					r.SetString("s", fmt.Sprintf("row-%d", i))
+					r.SetBool("f", i%3 != 1)
+					r.SetInt64("late", int64(i)*3)
 					return nil
 				})
 			}
@@ -134,7 +145,8 @@ func snapDump(c *column.Collection) string {
 			txn.QueryAt(idx, func(r column.Row) error {
 				n, _ := r.Int32("n")
 				s, _ := r.String("s")
-				out += fmt.Sprintf("%d:%d:%s ", idx, n, s)
+				l, hasL := r.Int64("late")
+				out += fmt.Sprintf("%d:%d:%s:%v:%d/%v:%v ", idx, n, s, r.Bool("f"), l, hasL, r.Bool("big"))
 				return nil
 			})
 		})
